@@ -48,8 +48,46 @@ def lock_trace(d, trace_no, upto):
     return out
 
 
+def static_sql_parity(res, cov):
+    """PostgreSQL is read, not run: every difference between its age-based retention DELETEs and SQLite's (which are executed
+    against the model) is a violation of C13 with the statement as the call site; listed ones are known findings."""
+    import json as _json
+    path = os.path.join(LEAN, "HkModel", "Generated", "prune_rules.json")
+    try:
+        rules = _json.load(open(path))
+    except (OSError, ValueError):
+        return
+    by = {(r["backend"], r["state"]): r for r in rules}
+    seen = []
+    for (be, st), r in sorted(by.items()):
+        if be == "sqlite":
+            continue
+        ref = by.get(("sqlite", st))
+        if ref is None:
+            continue
+        if r["column"] != ref["column"]:
+            fp = f"{be}:prune:{st}-keyed-on-{r['column']}"
+            res.violation(fp, f"{be}.go maybePrune: {st} messages are aged by {r['column']}, SQLite and the memory store age them by {ref['column']}",
+                          {"kind": "static-sql-parity", "theorem_or_tie": "Hk.PruneParity.postgres_prune_differences", "call_site": f"internal/queue/{be}.go maybePrune DELETE … state = '{st}' AND {r['column']} {r['cmp']} cutoff",
+                           "model_witness": "Hk.PruneParity.pinned_postgres_prunes_fresh_delivery", "note": "PostgreSQL cannot be executed in this sandbox: the call site is the replay"}, found=False)
+            seen.append(fp)
+        if r["cmp"] != ref["cmp"]:
+            fp = f"{be}:prune:cutoff-{r['cmp']}-instead-of-{ref['cmp']}"
+            res.violation(fp, f"{be}.go maybePrune: the age cutoff is tested with {r['cmp']}, SQLite and the memory store use {ref['cmp']} (a message whose age is exactly max_age)",
+                          {"kind": "static-sql-parity", "theorem_or_tie": "Hk.PruneParity.postgres_prune_differences", "call_site": f"internal/queue/{be}.go maybePrune DELETE … {r['column']} {r['cmp']} cutoff",
+                           "model_witness": "Hk.PruneParity.pinned_postgres_keeps_boundary", "note": "PostgreSQL cannot be executed in this sandbox: the call site is the replay"}, found=False)
+            seen.append(fp)
+    for be in sorted({r["backend"] for r in rules} - {"sqlite"}):
+        missing = [st for (b, st) in by if b == "sqlite" and (be, st) not in by]
+        for st in missing:
+            res.violation(f"{be}:prune:{st}-rule-missing", f"{be}.go maybePrune has no age-based DELETE for state {st} (SQLite has one)",
+                          {"kind": "static-sql-parity", "theorem_or_tie": "Hk.PruneParity.postgres_prune_differences"}, found=False)
+    cov["static_sql_parity"] = {"rules": rules, "differences": sorted(set(seen))}
+
+
 def check(prop, tier, res, replay=None):
     cov, lean_ok = proof_coverage(prop, res, {})
+    static_sql_parity(res, cov)
     if not lean_ok or not ensure_harness(res):
         cov.update({"evaluations": 0, "distinct_nontrivial": 0})
         return res.finish("proof", cov, ["correspondence not run: build failed"])
